@@ -49,6 +49,13 @@ def main():
         und = [l for l in out.splitlines() if l.startswith('UNDECIDED')]
         summary.append((sid, prop, rc, (viol or und or out.splitlines()[-1:])[:3]))
         print(sid, prop, 'exit', rc, (viol or und)[:2], flush=True)
+        if not benign:
+            mp = os.path.join(d, 'meta.json')
+            mm = json.load(open(mp))
+            obl = ','.join(sorted({x for l in viol for x in re.findall(r'obligation=(\S+)', l)}))[:600]
+            mm['detected'] = (f"detected: exit 1, {obl}" + (' (with a concrete failing input)' if viol and not any('no-failing-input-found' in l for l in viol) else '')) if rc == 1 \
+                else ('NOT detected (exit 0)' if rc == 0 else 'undecided (exit 2): ' + '; '.join(und)[:300])
+            json.dump(mm, open(mp, 'w'), indent=1)
     shutil.rmtree(SCR, ignore_errors=True)
     print(json.dumps(summary, indent=1))
 
